@@ -9,6 +9,9 @@
 (*   {"ev":"reset","h":H}            new receiver / new key epoch          *)
 (*   {"ev":"check","h":H,"s":N,"ok":B}    windowed classes (N < 2^31)      *)
 (*   {"ev":"tcheck","h":H,"t":N,"ok":B}   signed class, t = ms since base  *)
+(*   {"ev":"ownsend","h":H,"wrap":B}  the receiver sealed frames of its own *)
+(*        (with wrap: across its own 2^32 counter wrap and outgoing key    *)
+(*        rollover); what it has accepted from the sender is unchanged     *)
 (***************************************************************************)
 EXTENDS Integers, Sequences, FiniteSets, TLC, Json
 
@@ -52,9 +55,13 @@ TCheck == /\ Ev.ev = "tcheck"
           /\ latest' = IF Ev.ok THEN [latest EXCEPT ![Ev.h] = Ev.t] ELSE latest
           /\ UNCHANGED <<acc, newest>>
 
+OwnSend == /\ Ev.ev = "ownsend"
+           /\ Ev.h \in DOMAIN acc
+           /\ UNCHANGED <<acc, newest, latest>>
+
 TraceNext == /\ l <= Len(Trace)
              /\ l' = l + 1
-             /\ (Reset \/ Check \/ TCheck)
+             /\ (Reset \/ Check \/ TCheck \/ OwnSend)
 
 TraceSpec == TraceInit /\ [][TraceNext]_tvars
 
